@@ -8,13 +8,13 @@ package vf
 
 import (
 	"context"
-	"sort"
 	"encoding/json"
 	"errors"
 	"fmt"
 	"os"
 	"path/filepath"
 	"runtime"
+	"sort"
 	"sync"
 	"testing"
 	"testing/synctest"
@@ -218,7 +218,6 @@ var pausePointsC18 = map[string]bool{
 	"notify.close.acquired": true, "notify.close.broadcast": true,
 	"blocking.publish.before-notify": true, "blocking.consume.after-wait": true,
 }
-
 
 // runNotifySchedule runs one schedule inside the current synctest bubble. It returns the choice log and
 // arities (for the odometer) and a violation message ("" = none).
